@@ -55,25 +55,63 @@ def extract_table(cf, rep):
                 defs[lhs[1]] = rhs
             elif lhs[0] == "idx" and lhs[1] == ("var", "neigh"):
                 count_store = (s, lhs[2], rhs)
-        elif s.get("kind") == "IfStmt":
-            cond = ex(s["inner"][0])
-            then = s["inner"][1]
-            if len(s["inner"]) > 2:
-                raise AnalysisError("ptnghb: if/else form not understood")
-            incs, sts = 0, []
-            for n in stmts(then) if then.get("kind") == "CompoundStmt" else [then]:
-                t = ex(n)
-                if t[0] == "un" and t[1] in ("++", "++post") and t[2] == ("var", "k"):
-                    incs += 1
-                elif is_assign(n) and ex(n["inner"][0])[0] == "idx":
-                    sts.append((n, ex(n["inner"][0]), ex(n["inner"][1]), incs))
-                else:
-                    raise AnalysisError(f"ptnghb: unexpected statement in guarded block: {cf.text(n)[:60]}")
-            for (n, lhs, rhs, inc_before) in sts:
-                stores.append({"node": n, "cond": cond, "lhs": lhs, "rhs": rhs, "incs": incs, "inc_before": inc_before,
-                               "nst": len(sts)})
+        elif s.get("kind") == "IfStmt" or (s.get("kind") == "UnaryOperator" and s.get("opcode") == "++"):
+            pass        # handled by the path walk below
         else:
             raise AnalysisError(f"ptnghb: unexpected statement {s.get('kind')}")
+    # guarded stores, by a walk over the (possibly nested, possibly if/else) structure with the path condition and the number of
+    # k++ executed since the previous store on that path:  {k++; neigh[k+9n] = e}  in any arrangement gives inc_before == 1
+    def negate(c):
+        if c[0] == "bin" and c[1] in ("==", "!="):
+            return ("bin", "!=" if c[1] == "==" else "==", c[2], c[3])
+        if c[0] == "un" and c[1] == "!":
+            return c[2]
+        raise AnalysisError(f"ptnghb: else-branch of a compound condition not understood: {show(c)}")
+
+    def conj(cs):
+        out = None
+        for c in cs:
+            out = c if out is None else ("bin", "&&", out, c)
+        return out
+
+    def walk(sts, conds, pending):
+        for n in sts:
+            k_ = n.get("kind")
+            t = ex(n) if k_ in ("UnaryOperator", "BinaryOperator", "CompoundAssignOperator") else None
+            if t is not None and t[0] == "un" and t[1] in ("++", "++post") and t[2] == ("var", "k"):
+                pending += 1
+            elif is_assign(n) and ex(n["inner"][0])[0] == "idx" and ex(n["inner"][0])[1] == ("var", "neigh"):
+                lhs_, rhs_ = ex(n["inner"][0]), ex(n["inner"][1])
+                if not conds:
+                    nonlocal_count.append((n, lhs_[2], rhs_))
+                else:
+                    stores.append({"node": n, "cond": conj(conds), "lhs": lhs_, "rhs": rhs_, "incs": pending, "inc_before": pending, "nst": 1})
+                    pending = 0
+            elif is_assign(n) and ex(n["inner"][0])[0] == "var":
+                pass
+            elif k_ == "IfStmt":
+                c = ex(n["inner"][0])
+                then = n["inner"][1]
+                p1 = walk(stmts(then) if then.get("kind") == "CompoundStmt" else [then], conds + [c], pending)
+                p2 = pending
+                if len(n["inner"]) > 2:
+                    els = n["inner"][2]
+                    p2 = walk(stmts(els) if els.get("kind") == "CompoundStmt" else [els], conds + [negate(c)], pending)
+                elif pending:
+                    raise AnalysisError("ptnghb: k++ before a one-sided if: a slot is skipped when the condition is false")
+                if p1 != p2 and len(n["inner"]) > 2:
+                    raise AnalysisError("ptnghb: branches consume a different number of slots")
+                pending = p1 if len(n["inner"]) > 2 else 0 if pending == 0 else pending
+            else:
+                raise AnalysisError(f"ptnghb: unexpected statement in the neighbour loop: {cf.text(n)[:60]}")
+        return pending
+    nonlocal_count = []
+    stores.clear()
+    rest = walk(stmts(lbody), [], 0)
+    if rest:
+        raise AnalysisError("ptnghb: trailing k++ without a store")
+    if nonlocal_count:
+        count_store = nonlocal_count[-1]
     # j = n/mk ; i = n - j*mk ; k = -1
     if defs.get("j") != ("bin", "/", ("var", "n"), ("var", "mk")):
         raise AnalysisError("ptnghb: j = n/mk not found")
